@@ -837,6 +837,7 @@ func (st *tunnelClientStream) acceptServerFrame(frame tunnelpb.ServerToClientFra
 			// TODO: cancel RPC and fail locally with internal error?
 			return
 		}
+		verifYield("cli.hdr.accept", st.streamID)
 		st.gotHeaders = true
 		st.headers = fromProto(frame.ResponseHeaders)
 		for _, hdrs := range st.headersTargets {
